@@ -733,6 +733,11 @@ where
     let ps_ref = Rc::new(RefCell::new(ps));
     let job_futures: FuturesUnordered<Pin<Box<dyn Future<Output = ()>>>> = FuturesUnordered::new();
     pin_mut!(job_futures);
+    // An error below must not make us return while jobs we started are still
+    // running: each of them keeps its target locked until its result has been
+    // recorded, and returning would drop (release) those locks with the
+    // scripts still at work.
+    let outcome: Result<(), RedoError> = async {
     {
         let mut seen: HashSet<RedoPathBuf> = HashSet::new();
         // Different spellings (x, ./x, d/../x) name the same record and lock.
@@ -915,10 +920,13 @@ where
             }
         }
     }
+    Ok(())
+    }
+    .await;
     // TODO(maybe): Use !job_futures.is_empty() instead of server.is_running() in
     // the above loop.
     job_futures.fold((), |_, _| future::ready(())).await;
-    result.replace(Ok(()))
+    outcome.and(result.replace(Ok(())))
 }
 
 /// Returns the exit code of the first [`RedoErrorKind::ImmediateExit`] in the
